@@ -1,5 +1,7 @@
 ---------------------------- MODULE IntrospectMC ----------------------------
 EXTENDS Introspect
+Id2 == {<<1, 2>>}
+Perm2 == {<<1, 2>>, <<2, 1>>}
 Id3 == {<<1, 2, 3>>}
 Id4 == {<<1, 2, 3, 4>>}
 Id5 == {<<1, 2, 3, 4, 5>>}
@@ -7,20 +9,26 @@ Perm3 == {<<1, 2, 3>>, <<1, 3, 2>>, <<2, 1, 3>>, <<2, 3, 1>>, <<3, 1, 2>>, <<3, 
 K_callables == {"alias", "callback", "function"}
 K_compound  == {"alias", "callback", "function", "record"}
 K_skip      == {"alias", "callback", "function", "record", "enum"}
-K_class     == {"alias", "callback", "record", "class"}
+K_class     == {"alias", "callback", "record", "class", "function"}
+K_flags     == {"alias", "callback", "function", "record"}
+K_cbalias   == {"alias", "callback"}
 K_all       == {"alias", "callback", "function", "record", "enum", "class"}
 TK_core  == {"fund", "varargs", "valist", "unres", "node"}
 TK_full  == {"fund", "valist", "longlong", "longdouble", "varargs", "unres", "foreign", "node"}
 TK_chain == {"fund", "varargs", "node"}
 TK_small == {"fund", "unres", "node"}
+TK_chain4 == {"fund", "varargs", "valist", "node"}
+TK_quick == {"fund", "valist", "longlong", "varargs", "unres", "node"}
 \* findings of the implementation layer under C declaration order
 Known_c  == {"alias-to-nonintrospectable-callback"}
 \* ... plus the ones that need a use-before-declaration order (not producible from a C header)
-Known_any == Known_c \cup {"alias-to-nonintrospectable-alias", "function-to-nonintrospectable-callback",
-                           "callback-to-nonintrospectable-callback"}
+Known_any == Known_c \cup {"alias-to-nonintrospectable-callback@use-before-declaration",
+                           "alias-to-nonintrospectable-alias@use-before-declaration",
+                           "function-to-nonintrospectable-callback@use-before-declaration",
+                           "callback-to-nonintrospectable-callback@use-before-declaration"}
 None == {}
 W_alias_cb == {"alias-to-nonintrospectable-callback"}
-W_alias_alias == {"alias-to-nonintrospectable-alias"}
-W_fn_cb == {"function-to-nonintrospectable-callback"}
-W_cb_cb == {"callback-to-nonintrospectable-callback"}
+W_alias_alias == {"alias-to-nonintrospectable-alias@use-before-declaration"}
+W_fn_cb == {"function-to-nonintrospectable-callback@use-before-declaration"}
+W_cb_cb == {"callback-to-nonintrospectable-callback@use-before-declaration"}
 =============================================================================
